@@ -15,8 +15,14 @@ class C10(LoopCheck):
 
     def configs(self, tier):
         out = super().configs(tier)
+        for c in list(out):
+            if c["flow"] == "plain" and c["schedule"] == ("fixed1" if tier == "quick" else "fixed2") and not c["n_final"] and c["sampler"] == "MiniPCNSMC":
+                c2 = dict(c)
+                c2["precond"] = "logit"
+                c2["name"] = c["name"] + "-logit-precond"
+                out.append(c2)
         for n, d in ([(2, 1)] if tier == "quick" else [(2, 1), (2, 2), (3, 1)]):
-            out.append({"name": f"initial-fp-n{n}-d{d}", "kind": "initial_fp", "N": n, "d": d, "rounds": 2, "flow": "initial_fp", "timeout_ms": 120000})
+            out.append({"name": f"initial-fp-n{n}-d{d}", "kind": "initial_fp", "N": n, "d": d, "rounds": 3, "flow": "initial_fp", "timeout_ms": 120000})
         return out
 
     def ctx_for(self, cfg, seed):
@@ -53,9 +59,8 @@ class C10(LoopCheck):
             fin = lambda t: z3.Not(z3.Or(z3.fpIsNaN(t), z3.fpIsInf(t)))  # noqa: E731
             # specification: the first n finite-prior rows in draw order
             rows = []
-            for k in range(1, flow.n_draws + 1):
-                x = sx.sym(f"q{k}", (n, d))
-                for i in range(n):
+            for x in flow.draws:  # whatever sizes the code asked the proposal for
+                for i in range(x.shape[0]):
                     r = sx.terms(x[i])
                     if ctx.branch(fin(fns.PI(*r))):
                         rows.append(r)
